@@ -30,6 +30,10 @@ Proof.
   constructor; [exact I | apply no_call_writes].
 Qed.
 
+Lemma bind_same {A B} (m m' : M A) (f : A -> M B) s s' :
+  m s = m' s' -> bind m f s = bind m' f s'.
+Proof. intro H. unfold bind. rewrite H. reflexivity. Qed.
+
 (* the plaintext phase up to and including set_seq *)
 Lemma phase1_prefix cfg s q req rest ssl user :
   fresh s -> q < 256 -> inbound s = frame (s_lim s) q req ++ rest ->
@@ -168,8 +172,8 @@ Proof.
   destruct (phase1_prefix cfg s q hs rest false user Hfresh Hq Hin Hhs)
     as (s3 & evs & Hon & Hcl & El & Eq & Hin3 & Hall & Htr & Hp1 & Hinit).
   cbv beta iota in Hp1. specialize (Hinit errtab). cbv beta iota in Hinit.
-  unfold run_on_tls, run_on. rewrite Hp1. unfold ret.
-  unfold bind at 1 3. rewrite Hinit. reflexivity.
+  unfold run_on_tls, run_on. rewrite Hp1. unfold ret. cbv beta iota.
+  apply bind_same. symmetry. exact Hinit.
 Qed.
 
 Print Assumptions tls_routing.
